@@ -305,6 +305,9 @@ func mutate(class string, seed int64, orig []byte, other func(r *rand.Rand) []by
 			at = r.Intn(n + 1)
 		}
 		return insertAt(out, at, grp)
+	case "kwline":
+		// bare form (member-level container mutations, container.go): the keyword is one of the metadata header names
+		return kwMutate(r, headerPrefixes[r.Intn(len(headerPrefixes))], orig)
 	case "zipwrap":
 		return zipWrap(r, orig, other)
 	case "zipmem":
